@@ -72,6 +72,28 @@ theorem append_flat (arr : List Byte) (m : Msg) : m.append arr = Flat.append arr
   append_eq arr m
 example : (Msg.mk [1] [[], [2, 3]]).append [9] = [9, 1, 2, 3] := by decide
 
+/-- `mpt_message_append` with the allocation behaviour of the array spelled out: when no allocation
+    fails the result is the contiguous append … -/
+theorem append_sched_ok (arr : List Byte) (m : Msg) :
+    (m.appendSched arr 0).ret = 0 ∧ (m.appendSched arr 0).out = Flat.append arr m.flat := by
+  have h := appendLoop_ok (m.base :: m.cont) (if arr.length = 0 then none else some (Msg.bufCap arr.length)) arr 0
+  simp only [Msg.appendSched, h.1, if_true, h.2, Flat.append, Msg.flat]
+  simp
+
+/-- … and a **refused append leaves the array exactly as it was**, whichever allocation fails and
+    however many fragments were already appended (the roll-back goes to the array's current buffer) -/
+theorem append_refused_pure (arr : List Byte) (m : Msg) (failAt : Nat) (h : (m.appendSched arr failAt).ret < 0) :
+    (m.appendSched arr failAt).out = arr := by
+  unfold Msg.appendSched at h ⊢
+  generalize (if arr.length = 0 then none else some (Msg.bufCap arr.length)) = cap0 at h ⊢
+  obtain ⟨x, hx⟩ := appendLoop_prefix failAt (m.base :: m.cont) cap0 arr 0
+  simp only [] at h ⊢
+  by_cases hok : (Msg.appendLoop failAt (m.base :: m.cont) cap0 arr 0).1 = true
+  · simp [hok] at h
+  · simp [hok, hx]
+example : (Msg.mk [1, 2, 3] [List.replicate 70 7]).appendSched [] 2 = ⟨Err.MissingBuffer.code, [], 2⟩ ∧
+    ((Msg.mk [1, 2, 3] [List.replicate 70 7]).appendSched [9] 1).out = [9] := by decide
+
 /-- `mpt_memcpy` between two fragment lists (at least one fragment each): return value, the target
     bytes afterwards, and every target fragment keeps its size.  All lengths, also negative
     ("as much as fits"). -/
